@@ -14,4 +14,15 @@ theorem elf_Elf_Sunw_Syminfo : Gen.elfBundles.map (fun b => (b.1, b.2.Elf_Sunw_S
 theorem elf_Elf_word : Gen.elfBundles.map (fun b => (b.1, b.2.Elf_word)) = Spec.allElfCfgs.map (fun c => (c, (Spec.elfStructs c).Elf_word)) := by rfl
 theorem elf_Elf_xword : Gen.elfBundles.map (fun b => (b.1, b.2.Elf_xword)) = Spec.allElfCfgs.map (fun c => (c, (Spec.elfStructs c).Elf_xword)) := by rfl
 
+/-- a per-field tie, read pointwise: the field of the bundle generated for `c` is the Spec's -/
+theorem field_of_tie {α : Type} (proj : ElfStructs → α)
+    (h : Gen.elfBundles.map (fun b => (b.1, proj b.2)) = Spec.allElfCfgs.map (fun c => (c, proj (Spec.elfStructs c))))
+    {c : ElfCfg} {S : ElfStructs} (hS : (c, S) ∈ Gen.elfBundles) : proj S = proj (Spec.elfStructs c) := by
+  have hm : (c, proj S) ∈ Gen.elfBundles.map (fun b => (b.1, proj b.2)) := List.mem_map.mpr ⟨(c, S), hS, rfl⟩
+  rw [h] at hm
+  obtain ⟨c', -, hc'⟩ := List.mem_map.mp hm
+  simp only [Prod.mk.injEq] at hc'
+  obtain ⟨rfl, h2⟩ := hc'
+  exact h2.symm
+
 end PyElf.Props.TieC03
